@@ -32,8 +32,8 @@ TEXT = {
             "full for responses; requests under the URI law (dependency finding KF3 where it fails)"),
     "C12": ("Proved by header-list algebra for every original header list, every list of other codings and every trailer list: C12_content_length, C12_transfer_encoding, C12_no_trailer, C12_others; plus an independent post-condition checker on the implementation.",
             "full"),
-    "C13": ("Proved: C13_stack (rhymuweb's own stack logic for any inverse pair of codecs, any token spelling), inversion of the modelled inflate / zlib / gzip for stored-block streams of any size (C13_inflate_stored_blocks, C13_zlib_stored_blocks, C13_gzip_stored_blocks), end to end for every stack of level-0 layers up to decode_body (C13_level0_stacks, C13_decodeBody_level0_stacks). Huffman-coded blocks (levels 1-9) rest on correspondence: model inflate = flate2 on streams from an independent encoder (CPython zlib, all levels and strategies, flush points) and hand-rolled containers.",
-            "partial (Huffman blocks by correspondence)"),
+    "C13": ("Proved for every DEFLATE stream: canonical Huffman decoding is correct for every table of code lengths (decodeSym_canon), the symbol loop for any pair of code books (inflateCodes_book), dynamic block headers with any run-length coded tables (dynamicBlock_spec), stored blocks from any bit offset (storedBlock_spec), any sequence of stored / fixed / dynamic blocks (inflateBlocks_blocks), bare, in gzip and in zlib (C13_inflateRaw_blocks, C13_gzip_blocks, C13_zlib_blocks, sniff_blocks), and at decode_body for every stack of codings each written by ANY conforming encoder (C13_decodeBody_every_encoder; a Deflater is any function to block sequences that respects the format and expands to the body). Non-vacuity against real zlib output: Hm/C13Example (kernel-evaluated) and the encoder-spec family of the check (every level / strategy / flush pattern: description satisfies Block.Ok, re-encodes bit for bit, expands to the data). Fidelity of the inflate model to flate2/miniz_oxide and gzip optional header fields: correspondence.",
+            "full for the model of flate2; model fidelity by correspondence"),
     "C14": ("Proved for arbitrary codec functions: C14_failure_atomic, C14_content_length, C14_content_encoding, C14_others_unchanged; instance with the modelled decoders C13_decodeBody_level0_stacks; independent post-condition checker on the implementation.",
             "full"),
     "C15": ("Proved on the container/inflate model for all byte strings: truncation theorems at the entry points (C15_gunzip_truncated, C15_zlibDecode_truncated, C15_inflateRaw_truncated, and hypothesis-free for every level-0 stream), checks applied (C15_gzip_check, C15_zlib_check), altered trailers rejected (C15_gzip_field_altered, C15_zlib_field_altered), header checks (C15_gzip_signature, C15_zlib_header), lifted to decode_body for the gzip layer. Single-bit flips inside compressed data are checked on the implementation against the three allowed outcomes with an independent CRC-32 / Adler-32.",
